@@ -6,7 +6,7 @@
       readable stat file like any other — `XTable.read` shows that the state letter is never looked at;
     * `ppid_map()` runs over a *listing* (`pids()`) and a world: a listed PID whose file is gone is
       skipped, an unreadable one is skipped when the fact `mapSkipsDenied` holds (psutil ≥ cdbd31b) and
-      lets a bare `PermissionError` escape otherwise;
+      lets a bare `PermissionError` escape otherwise; likewise `mapSkipsGone` for a listed PID whose file is gone;
     * every `parent()` call of the `parents()` loop sees its own worlds (`PStep`: the listing for
       `pids()[0]`, the world of the identity check, of the own-stat read of `ppid()`, of
       `Process(ppid)`): an ancestor may exit, be reaped, or have its PID reused between two steps;
@@ -71,6 +71,7 @@ inductive XOut (α : Type) where
   | nsp (pid : Nat)            -- psutil.NoSuchProcess(pid)
   | denied (pid : Nat)         -- psutil.AccessDenied(pid)
   | permissionError            -- builtins.PermissionError out of ppid_map()
+  | fileNotFound               -- builtins.FileNotFoundError / ProcessLookupError out of ppid_map()
   | indexError
   | diverged
 deriving DecidableEq, Repr
@@ -85,6 +86,8 @@ structure XCfg where
   base : Cfg
   /-- `ppid_map()` lists `PermissionError` in the `except` of the open/read of a stat file -/
   mapSkipsDenied : Bool
+  /-- …and `FileNotFoundError` / `ProcessLookupError`: a process that exits between `pids()` and the read -/
+  mapSkipsGone : Bool
 deriving Repr
 
 /-! ## Identity of the caller -/
@@ -110,17 +113,24 @@ def raiseIfPidReusedX (goneRaises : Bool) (w : XWorld) (me : Caller) : Caller ×
 
 /-! ## ppid_map() / children() -/
 
-/-- `_pslinux.ppid_map()` over the listing `L` in world `w`; `none` = PermissionError -/
-def ppidMapX (skipDenied : Bool) (w : XWorld) : List Nat → Option PpidMap
-  | [] => some []
+/-- the bare OSError subclasses `ppid_map()` lets escape when its `except` does not list them -/
+inductive MapErr where
+  | permission     -- PermissionError (EACCES / EPERM)
+  | notFound       -- FileNotFoundError / ProcessLookupError (ENOENT / ESRCH)
+deriving DecidableEq, Repr
+
+/-- `_pslinux.ppid_map()` over the listing `L` in world `w`: the dict is filled in listing order, the first
+    stat file whose error is not tolerated ends the call -/
+def ppidMapX (skipDenied skipGone : Bool) (w : XWorld) : List Nat → Except MapErr PpidMap
+  | [] => .ok []
   | p :: ps =>
     match w p with
-    | .gone => ppidMapX skipDenied w ps
-    | .denied => if skipDenied then ppidMapX skipDenied w ps else none
+    | .gone => if skipGone then ppidMapX skipDenied skipGone w ps else .error .notFound
+    | .denied => if skipDenied then ppidMapX skipDenied skipGone w ps else .error .permission
     | .ok pp _ =>
-      match ppidMapX skipDenied w ps with
-      | none => none
-      | some m => some ((p, pp) :: m)
+      match ppidMapX skipDenied skipGone w ps with
+      | .error e => .error e
+      | .ok m => .ok ((p, pp) :: m)
 
 /-- what happens when one child PID is examined: `child = Process(pid)`, `child.create_time()` -/
 inductive Exam where
@@ -164,9 +174,10 @@ def childrenX (c : XCfg) (me : Caller) (recursive : Bool) (L : List Nat) (w0 wl 
   let g := if c.base.childrenGuarded then raiseIfPidReusedX c.base.goneRaises w0 me else (me, false)
   if g.2 then (g.1, .nsp me.pid)
   else
-    match ppidMapX c.mapSkipsDenied w0 L with
-    | none => (g.1, .permissionError)
-    | some pm =>
+    match ppidMapX c.mapSkipsDenied c.mapSkipsGone w0 L with
+    | .error .permission => (g.1, .permissionError)
+    | .error .notFound => (g.1, .fileNotFound)
+    | .ok pm =>
       let pm' := usedMap c.base me.pid pm
       if !recursive then
         match filterX (examOf c.base.childOp me.ctime wl) (kidsOf pm' me.pid) with
@@ -227,6 +238,7 @@ def parentCoreX (c : Cfg) (s : PStep) (me : Caller) (os : Oneshot) : Caller × O
   | (me', os', .nsp p) => (me', os', .nsp p)
   | (me', os', .denied p) => (me', os', .denied p)
   | (me', os', .permissionError) => (me', os', .permissionError)
+  | (me', os', .fileNotFound) => (me', os', .fileNotFound)
   | (me', os', .indexError) => (me', os', .indexError)
   | (me', os', .diverged) => (me', os', .diverged)
 
@@ -253,6 +265,7 @@ def parentsLoopX (c : Cfg) (W : Nat → PStep) :
     | (ps', _, _, .nsp p) => (ps', .nsp p)
     | (ps', _, _, .denied p) => (ps', .denied p)
     | (ps', _, _, .permissionError) => (ps', .permissionError)
+    | (ps', _, _, .fileNotFound) => (ps', .fileNotFound)
     | (ps', _, _, .indexError) => (ps', .indexError)
     | (ps', _, _, .diverged) => (ps', .diverged)
 
@@ -260,6 +273,13 @@ def parentsLoopX (c : Cfg) (W : Nat → PStep) :
 def parentsX (c : Cfg) (fuel : Nat) (ps : Ps) (W : Nat → PStep) (me : Caller) (os : Oneshot) :
     Ps × XOut (List Row) :=
   parentsLoopX c W fuel 0 ps [me.pid] me os []
+
+/-- Inside `with p.oneshot():` the platform method `_parse_stat_file()` is memoised as well: once ANOTHER
+    stat-based method (`name()`, `status()`, `cpu_times()`, `create_time()` of the platform object, …) has
+    run in the block, `self._proc.ppid()` is answered from the stat file AS IT WAS READ THEN (world `wc`),
+    not from the file as it is now. The front-end `Process.ppid()` still runs its identity check on a
+    fresh `Process(self.pid)` (world `wi`), and `Process(ppid)` is looked up afresh (world `wp`). -/
+def PStep.withStatMemo (s : PStep) (wc : XWorld) : PStep := { s with wo := wc }
 
 /-- all four worlds of a step taken from one table -/
 def stepOfX (T : XTable) : PStep := ⟨T.pids, T.read, T.read, T.read⟩
